@@ -70,14 +70,18 @@ def doms_of(name):
     return [{"kind": k, "l": l, "u": u, "n": n} for (_, k, l, u, n) in SPACES[name]]
 
 
-def p2e_configs(name, p2e_idx):
-    """p2e given as index lists (-1 = missing) -> list of partial config dicts."""
+def p2e_configs(name, p2e_idx, inexact=False):
+    """p2e given as index lists (-1 = missing) -> list of partial config dicts.  inexact: numerical values are given the way
+    users write them -- a float for an integer (3.0), a value slightly off the grid (which the library casts onto it)."""
     out = []
-    for p in p2e_idx:
+    for k, p in enumerate(p2e_idx):
         d = {}
         for (hp, kind, l, u, n), i in zip(SPACES[name], p):
             if i >= 0:
-                d[hp] = domain_values(kind, l, u, n)[i]
+                v = domain_values(kind, l, u, n)[i]
+                if inexact and kind in ("int", "logint", "fin"):
+                    v = float(v) + (0.25 if k % 2 == 0 else 0.0)        # 3.25 -> 3, 5.0 -> 5
+                d[hp] = v
         out.append(d)
     return out
 
@@ -201,7 +205,7 @@ class Episode:
         self._np_state = np.random.RandomState(seed * 104729 + 7).get_state()
         self.sign = 1.0 if mode == "min" else -1.0       # C15: the "max" twin sees the negated metric
         if sched is None:
-            p2e = None if p2e_idx is None else p2e_configs(name, p2e_idx)
+            p2e = None if p2e_idx is None else p2e_configs(name, p2e_idx, inexact=(seed % 3 == 2))
             cs, sched = make_scheduler(kind, name, p2e, seed, mode=mode)
         self.cs, self.sched = cs, sched
         self.ev: List[dict] = []
